@@ -1,5 +1,6 @@
 import Drivers.Proto
 import St4sd.Model.Layer
+import St4sd.Model.DslLoad
 /-! Model driver for property C15.
 
 ops
@@ -9,8 +10,13 @@ ops
   → `{"vars":[[sec,name,value],...],"effective":[value|null,...],"dedup":[i,...]}`
 * `{"op":"serialize","tree":T}` with `T = {"p":str} | {"d":[[key,T],...]} | {"l":[str,...]}`
   → `{"buf":str}`
+* `{"op":"dsl","steps":[str,...],"envs":[null | [[key, value|null],...],...]}` — the component instances of a
+  DSL 2.0 namespace in visiting order: step names, and environments with their entries in insertion order
+  (values already `str()`-ed, `null` = `None`)
+  → `{"names":[[stage,name] | "invalid" | "fuel",...],"envs":[null | "none" | "env<i>",...],
+     "registered":[["env<i>",[[key,value|null],...]],...]}`
 -/
-open Lean Proto St4sd.Layer St4sd.Assoc
+open Lean Proto St4sd.Layer St4sd.Assoc St4sd.DslLoad
 
 def secOf (i : Int) : Option Nat := if i < 0 then none else some i.toNat
 def secJson : Option Nat → Json
@@ -45,6 +51,32 @@ partial def parseTree (j : Json) : Except String Tree := do
     return ofItems xs
   | .error _ => throw "tree must be {p}|{d}|{l}"
 
+def parseEnv (j : Json) : Except String CEnv := do
+  match j with
+  | Json.null => return .unset
+  | _ =>
+    let es ← (← j.getArr?).toList.mapM (fun e => do
+      let a ← e.getArr?
+      if a.size != 2 then throw "environment entry must be [key,value|null]"
+      let k ← a[0]!.getStr?
+      match a[1]! with
+      | Json.null => return (k.toList, none)
+      | v => return (k.toList, some (← v.getStr?).toList))
+    return .dict es
+
+def envEntries (e : Env) : Json :=
+  jarr (e.map fun kv => jarr [jchars kv.1, jopt jchars kv.2])
+
+def envNameJson : EnvName → Json
+  | .null => Json.null
+  | .noneLit => jstr "none"
+  | .env i => jstr s!"env{i}"
+
+def nameResJson : NameRes → Json
+  | .named st n => jarr [jnat st, jchars n]
+  | .invalid => jstr "invalid"
+  | .fuelOut => jstr "fuel"
+
 def handle (j : Json) : Except String Json := do
   let op ← getStr j "op"
   match op with
@@ -64,6 +96,13 @@ def handle (j : Json) : Except String Json := do
   | "serialize" =>
     let t ← parseTree (← j.getObjVal? "tree")
     return jobj [("buf", jchars (serialize t))]
+  | "dsl" =>
+    let steps ← getCharsList j "steps"
+    let envs ← (← getArr j "envs").mapM parseEnv
+    return jobj [
+      ("names", jarr ((assignNames [] steps).map nameResJson)),
+      ("envs", jarr ((assignEnvs [] envs).map envNameJson)),
+      ("registered", jarr ((registered [] envs).map fun p => jarr [jstr s!"env{p.1}", envEntries p.2]))]
   | _ => throw s!"unknown op {op}"
 
 def main : IO Unit := serve handle
